@@ -52,6 +52,13 @@ def run(e: Engine, rep: Report):
              'shared between messages')
     rep.tables.add('c16.MEMOISERS')
     p6(e, rep)
+    rep.rule('P8', 'what a queue policy returns can be walked twice: '
+             'Queue._run_policies both adds the returned envelopes to its '
+             'result and recurses over them, so every apply() of a policy in '
+             'the repository returns None or a list / tuple - never a '
+             'generator or another one-shot iterator (the copies would be '
+             'written but skipped by the rest of the policy chain)')
+    p8(e, rep)
     rep.rule('P7', 'policy objects do not share state: no class-level '
              'mutable object of a policy class is changed in place through '
              'self without __init__ giving each instance its own')
@@ -927,3 +934,82 @@ def _p6_judge(e, rep, K, tgt, f, site, nm):
               'messages, an in-place change for one shows up in the '
               'others' % (nm, show(kk)), loc=f.loc(site),
               reason='returns ' + show(kk))
+
+
+# ---------------------------------------------------------------------- P8
+def p8(e: Engine, rep: Report):
+    from ..kinds import Kinds, show, U
+    K = Kinds(e)
+    # how often does the consumer walk the result?
+    rctx = e.method_ctx('slimta.queue.Queue', '_run_policies')
+    walks = 0
+    counted = set()
+
+    class _Once(int):
+        pass
+    for fn in [rctx.func.node]:
+        for x in ast.walk(fn):
+            if isinstance(x, ast.Assign) and isinstance(x.value, ast.Call) \
+                    and isinstance(x.value.func, ast.Attribute) and \
+                    x.value.func.attr == 'apply' and \
+                    isinstance(x.targets[0], ast.Name):
+                rv = x.targets[0].id
+                scope = fn
+                for y in ast.walk(scope):
+                    if isinstance(y, ast.For) and \
+                            isinstance(y.iter, ast.Name) and y.iter.id == rv \
+                            and id(y) not in counted:
+                        counted.add(id(y))
+                        walks += 1
+                    if isinstance(y, ast.Call) and \
+                            isinstance(y.func, ast.Attribute) and \
+                            y.func.attr in ('extend', 'update') and any(
+                                isinstance(a, ast.Name) and a.id == rv
+                                for a in y.args) and id(y) not in counted:
+                        counted.add(id(y))
+                        walks += 1
+                    if isinstance(y, ast.Call) and \
+                            isinstance(y.func, ast.Name) and \
+                            y.func.id in ('list', 'tuple', 'sorted', 'len') \
+                            and any(isinstance(a, ast.Name) and a.id == rv
+                                    for a in y.args) and \
+                            id(y) not in counted:
+                        counted.add(id(y))
+                        walks += 1
+                # a re-binding to a materialised copy makes any result fine
+                if any(isinstance(y, ast.Assign) and
+                       isinstance(y.targets[0], ast.Name) and
+                       y.targets[0].id == rv and y is not x and
+                       isinstance(y.value, ast.Call) and
+                       isinstance(y.value.func, ast.Name) and
+                       y.value.func.id in ('list', 'tuple')
+                       for y in ast.walk(scope)):
+                    walks = 1
+    rep.evaluations += 1
+    if walks == 0:
+        rep.error('anchor vanished: consumption of policy.apply() in '
+                  'Queue._run_policies')
+        return
+    n = 0
+    for cq in sorted(e.p.subclasses('slimta.policy.QueuePolicy')):
+        ctx = e.method_ctx(cq, 'apply')
+        if ctx.func.cls.qname == 'slimta.policy.QueuePolicy':
+            continue
+        n += 1
+        rep.evaluations += 1
+        rep.functions.add(ctx.func.qname)
+        kk = K.return_kinds(ctx)
+        oneshot = [k for k in kk if k in ('Gen', 'Iter', 'Map', 'Filter',
+                                          'Zip', 'DictView')]
+        rep.check(walks <= 1 or not oneshot, 'P8', ctx.func.qname,
+                  'apply() returns something that can be walked twice',
+                  'apply() can return a %s, and Queue._run_policies walks '
+                  'the result %d times: the first walk (adding the copies '
+                  'to the result) exhausts it, the recursion over the '
+                  'copies finds nothing - the policies after this one '
+                  'never see the split envelopes' % (show(frozenset(oneshot)),
+                                                    walks),
+                  loc=ctx.func.loc(), reason='returns %s' % show(kk))
+    if n < 5:
+        rep.error('anchor vanished: QueuePolicy implementations (%d < 5)'
+                  % n)
